@@ -146,13 +146,15 @@ func copyLocID(locID []byte) ([2]byte, error) {
 // * the starting RangePoint is the first IP of the Location, and we immediately know the LocID for this RangePoint
 // * the next RangePoint is the first IP _after_ the end of this Location, so it is marked as rangePointEnd, and the LocID is to be determined
 func (r *Rearranger) AddLocation(ipnet *net.IPNet, locID []byte) error {
-	maskLen, _ := ipnet.Mask.Size()
+	maskLen, maskBits := ipnet.Mask.Size()
 	copiedLocID, err := copyLocID(locID)
 	if err != nil {
 		return err
 	}
 
-	if firstIPv6.EqualToNetIP(ipnet.IP.To16()) {
+	// a default range is the whole address family: the network address alone does not
+	// tell (::/64 or 0.0.0.0/8 start at the same address as ::/0 and 0.0.0.0/0)
+	if maskLen == 0 && firstIPv6.EqualToNetIP(ipnet.IP.To16()) {
 		// it is ::/0
 		r.hasDefaultIPv6Range = true
 		defaultIPv6Location := rangeLocation{
@@ -170,8 +172,8 @@ func (r *Rearranger) AddLocation(ipnet *net.IPNet, locID []byte) error {
 			pointKind:  pointKindStart,
 			location:   defaultIPv6Location,
 		})
-	} else if firstIPv4.EqualToNetIP(ipnet.IP.To16()) {
-		// it is 0.0.0.0/0
+	} else if maskLen == maskBits-8*net.IPv4len && firstIPv4.EqualToNetIP(ipnet.IP.To16()) {
+		// it is 0.0.0.0/0 (given with a 32-bit mask, or as ::ffff:0.0.0.0/96)
 		r.hasDefaultIPv4Range = true
 		r.points = append(r.points, &RangePoint{
 			rangeStart: firstIPv4,
